@@ -17,7 +17,8 @@ RULE = (
     "(delete, duplicate, adjacent swap, block move, splice of another system's block, field mutation biased to the "
     "extremes the views compute with: 1F09 countdown 0000/FFFF, 7FFF/31FF temps, FF/7F/EF percents, zone idx 0B/0F, "
     "0418 idx, 3220 ids), eavesdropping on/off, discovery off (or on against a silent ether), and 1-6 operation points "
-    "(views | snapshot | snapshot+restore, include_expired on/off) anywhere in the history plus all views at the end. "
+    "(views | snapshot | snapshot+restore | snapshot during restore, include_expired on/off) anywhere in the history - in a fifth of "
+    "the cases also before the gateway is started - plus all views at the end. "
     "Non-trivial = >= 1 mutation and >= 1 mid-history operation point; distinct by the whole history."
 )
 
@@ -32,6 +33,8 @@ def judge(hist: dict, obs: dict) -> list[tuple[dict, str]]:
         seen.add(key)
         out.append(({"clause": "view-raises", "view": f["view"], "exc": f["exc"], "site": f["site"]}, f"at {f['at']}: {f['view']} -> {f['exc']}: {f['text']}"))
     for r in obs["state_ops"]:
+        if str(r["kind"]).startswith("prestart"):
+            continue  # judged by what follows: the engine must run normally once started (probe, final engine state)
         if r["before"] != r["after"]:
             out.append(({"clause": "engine-state-changed", "op": r["kind"], "raised": bool(r["raised"]),
                          "site": r["raised"]["site"] if r["raised"] else None},
@@ -70,14 +73,15 @@ def explore(job: dict) -> dict:
         return {"frames": h["frames"], "system": h["system"], "mutations": h["mutations"], "eavesdrop": draw(st.booleans()),
                 "discovery": draw(st.integers(0, 2)) == 0, "gap": draw(st.sampled_from((0.01, 0.05, 1.0))),
                 "pauses": {str(draw(st.integers(0, n))): draw(st.sampled_from((30.0, 400.0, 4000.0))) for _ in range(draw(st.integers(0, 2)))},
-                "ops": sorted(ops, key=lambda o: o["at"]), "rnd": draw(st.integers(0, 1000))}
+                "ops": sorted(ops, key=lambda o: o["at"]), "rnd": draw(st.integers(0, 1000)),
+                "prestart": draw(st.lists(st.sampled_from(("snapshot", "restore", "views")), min_size=1, max_size=3)) if draw(st.integers(0, 4)) == 0 else []}
 
     def body(hist: dict) -> None:
         obs = gwrig.run(hist)
         mid = any(0 < o["at"] < len(hist["frames"]) for o in hist["ops"])
         col.case(nt=jdump(hist["frames"]) + jdump(hist["ops"]) if hist["mutations"] and mid else None,
                  classes=["hist", f"sys:{hist['system'][:12]}", "eavesdrop:on" if hist["eavesdrop"] else "eavesdrop:off",
-                          "discovery:on" if hist["discovery"] else "discovery:off", "mutated" if hist["mutations"] else "pristine-slice",
+                          "discovery:on" if hist["discovery"] else "discovery:off", "mutated" if hist["mutations"] else "pristine-slice", "prestart-ops" if hist.get("prestart") else "no-prestart-ops",
                           "has-restore" if any("restore" in o["kind"] for o in hist["ops"]) else "no-restore"]
                  + [f"mut:{m}" for m in set(hist["mutations"])],
                  sample={"system": hist["system"], "n": len(hist["frames"]), "mutations": hist["mutations"], "ops": hist["ops"],
